@@ -237,7 +237,7 @@ func GetAttrString(self Object, key string) (res Object, err error) {
 	// Reading an attribute of a class: search the dictionaries of the
 	// classes in its MRO (not only its own) and bind what is found with
 	// __get__(None, cls) so classmethods and staticmethods work
-	if cls, ok := self.(*Type); ok {
+	if cls, ok := self.(*Type); ok && cls.Type().IsSubtype(TypeType) {
 		if res = cls.NativeGetAttrOrNil(key); res != nil {
 			if _, isProperty := res.(*Property); !isProperty {
 				if I, ok := res.(I__get__); ok {
